@@ -116,7 +116,7 @@ PROPS = {
                    f"{BT}._handle_status_battery", f"{BT}._handle_status_inverter",
                    f"{BT}._handle_status_battery_timer", f"{BT}._handle_status_inverter_timer",
                    f"{BT}._get_current_status", f"{BT}._get_new_status_if_changed",
-                   f"{BT}._handle_status_set_power_result",
+                   f"{BT}._handle_status_set_power_result", f"{BT}._run",
                    f"{CSM}._blocking_status:BlockingStatus.block", f"{CSM}._blocking_status:BlockingStatus.unblock",
                    f"{CSM}._blocking_status:BlockingStatus.is_blocked",
                    f"{CSM}._component_status:ComponentPoolStatus.get_working_components"],
@@ -127,12 +127,17 @@ PROPS = {
                     "true exactly if the handled message is fresh, operational, relay closed, without critical error and with "
                     "a capacity; expiry handlers clear it; the status is WORKING/UNCERTAIN only if both flags hold; "
                     "UNCERTAIN iff blocked; BlockingStatus.block doubles up to the maximum and resets; notifications only "
-                    "on change; uncertain components only as fallback.",
+                    "on change; uncertain components only as fallback. The select loop _run dispatches every event to its handler, "
+                    "re-evaluates the status after each handled event, sends exactly the changes, and a data timer firing while "
+                    "its own stream is stale marks that stream incorrect (status NOT_WORKING).",
         assumptions=[EXTRACTION,
                      "capacity is an IEEE double (NaN modelled); times are integer microseconds",
-                     "not under contract: the select() loop of _run (dispatch of each event to its handler, the staleness test "
-                     "before the expiry handlers, sending the notification) and ComponentPoolStatusTracker._update_status; "
-                     "freshness BETWEEN events rests on the library timers firing max_data_age after their last reset"],
+                     "the select() loop of _run is under contract with frequenz.channels.select / selected_from assumed (select "
+                     "yields items of its five sources in any order and number; selected_from identifies the producing source): "
+                     "loop invariant + per-iteration transition clauses (dispatch, staleness guard of both data timers, "
+                     "notification iff the status changed)",
+                     "not under contract: ComponentPoolStatusTracker._update_status; freshness BETWEEN events rests on the "
+                     "library timers firing max_data_age after their last reset"],
     ),
     "C07": dict(
         modules=["ts_resampler"],
